@@ -211,6 +211,7 @@ def parse_const(c):
     if c == 'true': return ('bool', True)
     if c == 'false': return ('bool', False)
     if c == '()': return ('unit',)
+    if c == '[]': return ('arr0',)
     if c.startswith('"'): return ('str', unescape_str(c[1:skip_string(c, 0) - 1]))
     if c.startswith('b"'): return ('bytes', unescape_bytes(c[2:skip_string(c, 1) - 1]))
     if c.startswith("'"):
